@@ -289,6 +289,18 @@ def _own_cjson(units, r):
     r.floor('OWN1', 'functions examined for NULL use in cJSON.c', len([o for o in r.obs if o.rule == 'OWN1']), 45)
 
 
+def run_C02(ctx, R):
+    from .rules import parse, lst
+    _per_config(ctx, R, parse.tab2_parse)
+    _per_config(ctx, R, parse.tab4)
+    _per_config(ctx, R, parse.tab5a)
+    _per_config(ctx, R, parse.tab6)
+    _per_config(ctx, R, _only_functions(parse.tab7, {'parse_number'}, 'TAB7', 1))
+    _per_config(ctx, R, parse.c02_structure)
+    _per_config(ctx, R, _only_functions(lst.lst1, {'parse_array', 'parse_object'}, 'LST1', 2))
+    _per_config(ctx, R, parse.tab1_depth_balance)
+
+
 def run_C03(ctx, R):
     from .rules import parse, own, tab
     _per_config(ctx, R, parse.tab1)
@@ -320,8 +332,25 @@ def run_C08(ctx, R):
 
 
 PROPERTIES = {
+    'C02': {
+        'run': run_C02, 'modules': ['parse', 'tables', 'utils'],
+        'explanation':
+            "Necessary conditions only. TAB2: all four entry points run the same parser on the same bytes (the string variants "
+            "add strlen+1), so 'all entry points produce equal trees' reduces to the length argument. TAB4: each literal is "
+            "compared at exactly its length, advanced by exactly its length and stored as its own type; the BOM likewise. "
+            "TAB5a: the escape switch maps b f n r t \" \\ / to the RFC 8259 bytes, u to the UTF-16 routine, nothing else. "
+            "TAB6: the surrogate ranges, 0x10000 offset, 0x3FF/10-bit combination, UTF-8 thresholds and lead-byte marks "
+            "extracted from utf16_literal_to_utf8 equal RFC 2781/3629 (comparisons normalised to boundaries so <= 0x7F and "
+            "< 0x80 are the same). TAB7: the int view is the saturating conversion. C02S: the dispatch enters the string, "
+            "number, array and object productions for exactly the first bytes RFC 8259 allows (byte-set dataflow over the "
+            "guards); containers append each new node after the current tail and set the head only once (input order), "
+            "object keys are the parsed string moved out of valuestring. LST1: the tail link is set. TAB1: the depth counter "
+            "is undone on success, so siblings do not count as nesting.",
+        'not_decided': ['exactness of decoding for every text: correct rounding (delegated to strtod), the UTF-8 bit arithmetic '
+                        'beyond its constants, whitespace/BOM acceptance, duplicate-member retention as values'],
+    },
     'C03': {
-        'run': run_C03, 'modules': ['parse', 'own', 'utils'],
+        'run': run_C03, 'modules': ['parse', 'own', 'utils', 'tables'],
         'explanation':
             "TAB1: nesting deeper than CJSON_NESTING_LIMIT is refused before the recursive call on every cycle of the parser "
             "(stack bounded by the limit). OWN1/OWN2 over the parse family under every NULL/non-NULL outcome of every "
